@@ -47,6 +47,7 @@ type desc struct {
 	Dly    int64   `json:"dly"`    // retry: fixed delay (units)
 	MaxD   int64   `json:"maxd"`   // retry: max duration (units)
 	Wait   int64   `json:"wait"`   // bulkhead: max wait time (units)
+	Fld    int64   `json:"fld"`    // fallback: how long its OnFailure listener takes (timed scenarios)
 	Rdf    bool    `json:"rdf"`    // retry: a delay function that reads the last error (1 unit after E1, 2 after E2, else 3)
 	Dfn    *int64  `json:"dfn"`    // breaker: open delay its delay function asks for (units); absent or -1: none
 	Per    int64   `json:"per"`    // bursty rate limiter of the sequential model: period (units); 0 = one endless period
@@ -837,7 +838,13 @@ func buildStack(stack []desc, unit time.Duration, rec *recorder) *builtStack {
 				b.OnSuccess(func(e failsafe.ExecutionEvent[string]) { rec.attempt("OnSuccess", evLayer, e, nil) })
 			}
 			if rec.registered("OnFailure") {
-				b.OnFailure(func(e failsafe.ExecutionEvent[string]) { rec.attempt("OnFailure", evLayer, e, nil) })
+				fld := time.Duration(d.Fld) * unit
+				b.OnFailure(func(e failsafe.ExecutionEvent[string]) {
+					rec.attempt("OnFailure", evLayer, e, nil)
+					if fld > 0 {
+						time.Sleep(fld) // a slow listener: whoever cancels meanwhile is seen by the check that follows
+					}
+				})
 			}
 			if rec.registered("OnFallbackExecuted") {
 				b.OnFallbackExecuted(func(e failsafe.ExecutionDoneEvent[string]) {
